@@ -56,6 +56,8 @@ type FDCase struct {
 	QSeed  uint64                `json:"qseed"`
 	// Via: which entry point opens the font
 	Via string `json:"via"` // parsettc | addfont
+	// Gid: a glyph the battery must query (the target of a structure-aware fault)
+	Gid int `json:"gid,omitempty"`
 	// SysTotal: size of the complete systematic list (set in run 0 only, for the evidence)
 	SysTotal int `json:"sys_total,omitempty"`
 }
@@ -196,6 +198,17 @@ func systematicCase(i int) (string, ByteFault) {
 
 // ------------------------------------------------------------------ generation
 
+var compositeCache = map[string][]faultdisk.CompositeGlyph{}
+
+func compositesOf(name string, img []byte) []faultdisk.CompositeGlyph {
+	if c, ok := compositeCache[name]; ok {
+		return c
+	}
+	c := faultdisk.Composites(img)
+	compositeCache[name] = c
+	return c
+}
+
 var pristineCalls = map[string]int{}
 
 // ioCalls measures the number of I/O calls of the fault-free load + battery.
@@ -258,6 +271,42 @@ func (e *fdEngine) Generate(seed uint64, tier string, run int) (json.RawMessage,
 	img := corpus.Bytes(c.Font)
 	kind, tables := faultdisk.ParseDirectory(img)
 	_ = kind
+	if rk.Chance(0.04) {
+		// structure-aware adversarial plan: reference cycles between composite glyphs (every
+		// chosen component of a composite is redirected to the glyph itself or to another
+		// composite that is redirected back), which defeats a depth limit that is not a work limit
+		if comps := compositesOf(c.Font, img); len(comps) > 0 {
+			var multi []faultdisk.CompositeGlyph
+			for _, cg := range comps {
+				if len(cg.IndexOffsets) >= 2 {
+					multi = append(multi, cg)
+				}
+			}
+			if len(multi) > 0 {
+				a := kernel.Pick(rf, multi)
+				b := kernel.Pick(rf, multi)
+				k := rf.Range(2, 6)
+				for i, off := range a.IndexOffsets {
+					if i >= k {
+						break
+					}
+					target := a.GID
+					if rf.Chance(0.4) {
+						target = b.GID
+					}
+					c.Bytes = append(c.Bytes, ByteFault{Kind: "set16", Off: off, Val: uint32(target), Aim: "glyf:cycle"})
+				}
+				for i, off := range b.IndexOffsets {
+					if i >= k || b.GID == a.GID {
+						break
+					}
+					c.Bytes = append(c.Bytes, ByteFault{Kind: "set16", Off: off, Val: uint32(a.GID), Aim: "glyf:cycle"})
+				}
+				c.Gid = a.GID
+				return json.Marshal(c)
+			}
+		}
+	}
 	nByte := rk.Weighted([]int{2, 6, 3, 1})
 	nIO := rk.Weighted([]int{6, 3, 1})
 	if nByte == 0 && nIO == 0 {
@@ -370,17 +419,83 @@ type budgetPanic struct{}
 // budgets: linear in the image size. The constants are calibrated on the pristine
 // corpus (see DESIGN.md): the most expensive pristine load+battery stays two
 // orders of magnitude below them.
-func tickBudget(n int) uint64  { return 40_000_000 + 4000*uint64(n) }
-func allocBudget(n int) uint64 { return 256<<20 + 600*uint64(n) }
+func tickBudget(n int) uint64 { return 40_000_000 + 4000*uint64(n) }
+
+// shapeTickBudget: shaping a short text is bounded by the shaper's own operation budget
+// (a constant number of operations, each of which may touch the whole, likewise bounded,
+// glyph buffer), not by the image size: an adversarial 2 KiB AAT insertion table legitimately
+// costs a few hundred million steps for six runes, a fixed ceiling that no input exceeds.
+// The budget is therefore a flat ceiling well above that plus the linear term; a shaping call
+// beyond it is a hang or a blow-up under any reading of the property.
+func shapeTickBudget(n int) uint64 { return 2_000_000_000 + 4000*uint64(n) }
+func allocBudget(n int) uint64     { return 256<<20 + 600*uint64(n) }
 
 type fdWorld struct {
 	out    *kernel.Outcome
 	img    []byte
 	ticks0 uint64
+	budget uint64 // budget of the phase in progress (for the report)
+	// allocation attribution: a case that exceeds the allocation budget is executed a second
+	// time with runtime.MemProfileRate = 1 (wantProfile -> profiled)
+	wantProfile bool
+	profiled    bool
+	prof0       map[string]int64
+}
+
+// allocProfile returns the bytes allocated so far per innermost library function.
+func allocProfile() map[string]int64 {
+	runtime.GC()
+	runtime.GC()
+	n, _ := runtime.MemProfile(nil, true)
+	recs := make([]runtime.MemProfileRecord, n+256)
+	n, ok := runtime.MemProfile(recs, true)
+	if !ok {
+		return nil
+	}
+	out := map[string]int64{}
+	for _, r := range recs[:n] {
+		frames := runtime.CallersFrames(r.Stack())
+		for {
+			f, more := frames.Next()
+			if strings.Contains(f.Function, "go-text/typesetting/") && !strings.Contains(f.Function, "/verifsim.") {
+				fn := f.Function[strings.Index(f.Function, "go-text/typesetting/")+len("go-text/typesetting/"):]
+				out[fn] += r.AllocBytes
+				break
+			}
+			if !more {
+				break
+			}
+		}
+	}
+	return out
+}
+
+func dominantAllocSite(before map[string]int64) (string, int64) {
+	after := allocProfile()
+	best, bytes := "", int64(0)
+	for _, fn := range kernel.SortedKeys(after) {
+		if d := after[fn] - before[fn]; d > bytes {
+			best, bytes = fn, d
+		}
+	}
+	return best, bytes
+}
+
+// enterShaping re-arms the step budget when the battery moves from queries to shaping.
+func (w *fdWorld) enterShaping() {
+	w.budget = shapeTickBudget(len(w.img))
+	tickArm(w.budget, func() {
+		tickDisarm()
+		panic(budgetPanic{})
+	})
 }
 
 // guarded runs f under the tick budget; panics and budget trips become data.
 func (w *fdWorld) guarded(what string, budget uint64, f func()) (v *kernel.Violation) {
+	w.budget = budget
+	if w.profiled {
+		w.prof0 = allocProfile()
+	}
 	tickArm(budget, func() {
 		tickDisarm()
 		panic(budgetPanic{})
@@ -392,11 +507,19 @@ func (w *fdWorld) guarded(what string, budget uint64, f func()) (v *kernel.Viola
 		tickDisarm()
 		used := tickCount() - start
 		w.out.Count("ticks", int64(used))
+		// calibration data for the budgets: high-water marks relative to the budget (per mille)
+		if pm := int64(used * 1000 / w.budget); pm > w.out.Counters["max.ticks_permille_of_budget"] {
+			w.out.Counters["max.ticks_permille_of_budget"] = pm
+		}
 		if r := recover(); r != nil {
 			site, where := kernel.PanicSite(3)
 			if _, isBudget := r.(budgetPanic); isBudget {
 				v = &kernel.Violation{Oracle: "bounded-time", Site: what + ":" + site,
-					Detail: fmt.Sprintf("%s exceeded the step budget of %d ticks for a %d-byte image (at %s)", what, budget, len(w.img), where)}
+					Detail: fmt.Sprintf("%s exceeded the step budget of %d ticks for a %d-byte image (at %s)", what, w.budget, len(w.img), where)}
+				return
+			}
+			if fb, ok := r.(fidelityBreach); ok {
+				v = &kernel.Violation{Oracle: "reader-fidelity", Site: "RawTable", Detail: string(fb)}
 				return
 			}
 			v = &kernel.Violation{Oracle: "no-panic", Site: site,
@@ -404,9 +527,22 @@ func (w *fdWorld) guarded(what string, budget uint64, f func()) (v *kernel.Viola
 			return
 		}
 		runtime.ReadMemStats(&m1)
+		if pm := int64((m1.TotalAlloc - m0.TotalAlloc) * 1000 / allocBudget(len(w.img))); pm > w.out.Counters["max.alloc_permille_of_budget"] {
+			w.out.Counters["max.alloc_permille_of_budget"] = pm
+		}
 		if alloc := m1.TotalAlloc - m0.TotalAlloc; alloc > allocBudget(len(w.img)) {
 			v = &kernel.Violation{Oracle: "bounded-memory", Site: what,
 				Detail: fmt.Sprintf("%s allocated %d bytes for a %d-byte image (budget %d)", what, alloc, len(w.img), allocBudget(len(w.img)))}
+			if w.profiled {
+				// second execution of the case with every allocation recorded: the identity of
+				// the finding is the library function that allocated most
+				if site, bytes := dominantAllocSite(w.prof0); site != "" {
+					v.Site = what + ":" + site
+					v.Detail += fmt.Sprintf("; %d bytes allocated in %s", bytes, site)
+				}
+			} else {
+				w.wantProfile = true
+			}
 		}
 		if used > w.maxTicks() {
 			w.out.Count("max_ticks_per_byte_x1000", 0)
@@ -419,14 +555,28 @@ func (w *fdWorld) guarded(what string, budget uint64, f func()) (v *kernel.Viola
 func (w *fdWorld) maxTicks() uint64 { return ^uint64(0) }
 
 func (e *fdEngine) Execute(raw json.RawMessage) (*kernel.Outcome, error) {
+	out, again, err := e.execute(raw, false)
+	if err == nil && again {
+		old := runtime.MemProfileRate
+		runtime.MemProfileRate = 1
+		out2, _, err2 := e.execute(raw, true)
+		runtime.MemProfileRate = old
+		if err2 == nil && out2.Violation != nil && out.Violation != nil && out2.Violation.Oracle == out.Violation.Oracle {
+			out.Violation = out2.Violation
+		}
+	}
+	return out, err
+}
+
+func (e *fdEngine) execute(raw json.RawMessage, profiled bool) (*kernel.Outcome, bool, error) {
 	var c FDCase
 	if err := json.Unmarshal(raw, &c); err != nil {
-		return nil, err
+		return nil, false, err
 	}
 	out := &kernel.Outcome{}
 	pristine := corpus.Bytes(c.Font)
 	img := applyByteFaults(pristine, c.Bytes)
-	w := &fdWorld{out: out, img: img}
+	w := &fdWorld{out: out, img: img, profiled: profiled}
 	out.Count("family."+c.Family, 1)
 	if c.SysTotal > 0 {
 		out.Count("systematic_list_size", int64(c.SysTotal)) // reported by run 0 only
@@ -478,12 +628,15 @@ func (e *fdEngine) Execute(raw json.RawMessage) (*kernel.Outcome, error) {
 		}
 		for i, f := range faces {
 			var d string
-			v = w.guarded(fmt.Sprintf("queries"), tickBudget(len(img)), func() { d = battery(f, c.QSeed, out) })
+			v = w.guarded(fmt.Sprintf("queries"), tickBudget(len(img)), func() { d = batteryPhased(f, c.QSeed, out, w.enterShaping, font.GID(c.Gid)) })
 			digest += fmt.Sprintf("face%d:%s\n", i, d)
 			if v != nil {
 				break
 			}
 		}
+	}
+	if v == nil && len(c.IO) == 0 {
+		v = w.readerFidelity(img)
 	}
 	if len(c.Bytes)+len(c.IO) > 0 && (len(c.Bytes) > 0 || len(file.Fired) > 0) {
 		out.Nontrivial = true
@@ -515,7 +668,7 @@ func (e *fdEngine) Execute(raw json.RawMessage) (*kernel.Outcome, error) {
 				rf = rf[:3]
 			}
 			for i, f := range rf {
-				want += fmt.Sprintf("face%d:%s\n", i, battery(f, c.QSeed, &kernel.Outcome{}))
+				want += fmt.Sprintf("face%d:%s\n", i, battery(f, c.QSeed, &kernel.Outcome{}, font.GID(c.Gid)))
 			}
 		})
 		if rv == nil && want != digest {
@@ -538,11 +691,57 @@ func (e *fdEngine) Execute(raw json.RawMessage) (*kernel.Outcome, error) {
 	}
 	out.Violation = v
 	out.Trace = kernel.HashString(digest + fmt.Sprint(lerr != nil))
-	return out, nil
+	return out, w.wantProfile && v != nil && v.Oracle == "bounded-memory", nil
 }
 
+// readerFidelity: the loader hands out what the disk holds. For a plain sfnt image (no
+// transient fault in this run) every table the loader returns without error must be
+// byte-identical to the image at the directory's offset and length, and a table that
+// extends past the end of the image cannot be returned at all: no fabricated bytes, no
+// partial read passed off as complete.
+func (w *fdWorld) readerFidelity(img []byte) (v *kernel.Violation) {
+	kind, tabs := faultdisk.ParseDirectory(img)
+	if kind != faultdisk.KindSfnt || len(tabs) == 0 {
+		return nil
+	}
+	seen := map[string]int{}
+	for _, t := range tabs {
+		seen[t.Tag]++
+	}
+	return w.guarded("table reads", tickBudget(len(img)), func() {
+		lds, err := ot.NewLoaders(faultdisk.NewFile(img, nil))
+		if err != nil || len(lds) != 1 {
+			return
+		}
+		for _, t := range tabs {
+			if seen[t.Tag] != 1 || t.Length == 0 || t.Length > 64<<20 || t.Offset < 0 {
+				continue
+			}
+			tag, terr := ot.NewTag(t.Tag[0], t.Tag[1], t.Tag[2], t.Tag[3]), error(nil)
+			raw, terr := lds[0].RawTable(tag)
+			w.out.Count("check.reader_fidelity", 1)
+			if terr != nil {
+				continue
+			}
+			if t.Offset+t.Length > len(img) {
+				panic(fidelityBreach(fmt.Sprintf("table %q (offset %d, length %d) extends past the %d-byte image but RawTable returned %d bytes without error", t.Tag, t.Offset, t.Length, len(img), len(raw))))
+			}
+			if !bytes.Equal(raw, img[t.Offset:t.Offset+t.Length]) {
+				panic(fidelityBreach(fmt.Sprintf("RawTable(%q) differs from the image at offset %d, length %d", t.Tag, t.Offset, t.Length)))
+			}
+		}
+	})
+}
+
+type fidelityBreach string
+
 // battery runs every kind of query and a few shapings on a face and returns a digest.
-func battery(f *font.Face, seed uint64, out *kernel.Outcome) string {
+func battery(f *font.Face, seed uint64, out *kernel.Outcome, extra ...font.GID) string {
+	return batteryPhased(f, seed, out, nil, extra...)
+}
+
+// batteryPhased calls onShaping (if any) between the query part and the shaping part.
+func batteryPhased(f *font.Face, seed uint64, out *kernel.Outcome, onShaping func(), extra ...font.GID) string {
 	var sb strings.Builder
 	r := kernel.NewRand(seed, "battery")
 	var runes []rune
@@ -578,6 +777,7 @@ func battery(f *font.Face, seed uint64, out *kernel.Outcome) string {
 		gids = append(gids, font.GID(i))
 	}
 	gids = append(gids, 0xFFFF, 0x10000, font.GID(r.Intn(70000)), font.GID(r.Intn(3000)))
+	gids = append(gids, extra...)
 	out.Count("op.glyph_queries", int64(len(gids)))
 	for _, g := range gids {
 		ext, ok := f.GlyphExtents(g)
@@ -625,6 +825,9 @@ func battery(f *font.Face, seed uint64, out *kernel.Outcome) string {
 	out.Count("op.variations_ppem", 1)
 
 	// shaping with short texts drawn from the face's own cmap
+	if onShaping != nil {
+		onShaping()
+	}
 	var sh shaping.HarfbuzzShaper
 	texts := [][]rune{[]rune("ab fi"), nil, nil}
 	for k := 1; k < 3 && len(runes) > 0; k++ {
